@@ -56,6 +56,11 @@ def run(tier):
         kn["fx_overwrite"] = (i % 3 != 1)
         scen.append({"shape": kn, "nproofs": 1, "hash": "blake2b", "seed": rng.randrange(1 << 30),
                      "max_faults": maxf})
+    # circuits whose single region fills every usable row and enables a gate on the LAST usable row
+    for i in range(2 if tier == "quick" else 8):
+        kn = dict(scen[i]["shape"])
+        kn.update({"fill_last": True, "rot_mul": 0, "k": 5 + i % 2})
+        scen.append({"shape": kn, "nproofs": 1, "hash": "blake2b", "seed": rng.randrange(1 << 30), "max_faults": maxf})
     chunks = [scen[i::vlib.NCPU] for i in range(vlib.NCPU)]
     jobs = []
     for i, ch in enumerate(chunks):
